@@ -627,5 +627,233 @@ theorem toStr_congr {R : BPoly.Ring α} (hR : R.F = F) (f : BPoly α) :
 
 end Par
 end B
+
+/-! ## `step` on the bivariate arithmetic operations -/
+section StepB
+variable {α : Type} {env env' : Env α} {V : Nat → α → Prop}
+
+/-- `EnvAgreeU` + the bivariate rings are over field 0 with valid ideal generators, and `env'` has
+    the same rings over its own field 0 -/
+structure EnvAgreeB (env env' : Env α) (V : Nat → α → Prop) : Prop where
+  u : EnvAgreeU env env' V
+  bringOK : ∀ i, B.BRingOK (env.fld 0) (V 0) (env.bring i)
+  bring' : ∀ i, env'.bring i = B.withFB (env.bring i) (env'.fld 0)
+
+/-- element, univariate and bivariate registers valid (the first three components of `StoreOKAll`) -/
+def StoreOKB (V : Nat → α → Prop) (s : St α) : Prop :=
+  StoreOKU V s ∧ ∀ k r, St.getL s.bs k = some r → AllM (V 0) r.val
+
+theorem StoreOKB.setB {s : St α} (hs : StoreOKB V s) (d : Nat) (r : BReg α)
+    (hr : AllM (V 0) r.val) : StoreOKB V { s with bs := St.setL s.bs d r } := by
+  refine ⟨hs.1, fun k r' hk => ?_⟩
+  rw [St.getL_setL] at hk
+  split at hk
+  · cases hk; exact hr
+  · exact hs.2 k r' hk
+
+theorem StoreOKB.setE {s : St α} (hs : StoreOKB V s) (d : Nat) (r : EReg α)
+    (hr : V r.home r.val) : StoreOKB V { s with es := St.setL s.es d r } :=
+  ⟨hs.1.setE d r hr, hs.2⟩
+
+theorem StoreOKB.foldB (home : Nat) : ∀ (kvs : List (Nat × BPoly α)) {s : St α}, StoreOKB V s →
+    (∀ x ∈ kvs, AllM (V 0) x.2) →
+    StoreOKB V { s with bs := kvs.foldl (fun bs (x : Nat × BPoly α) =>
+      St.setL bs x.1 { home := home, val := x.2 }) s.bs } := by
+  intro kvs
+  induction kvs with
+  | nil => intro s hs _; exact hs
+  | cons x t ih =>
+    intro s hs hx
+    exact ih (hs.setB x.1 { home := home, val := x.2 } (hx x List.mem_cons_self))
+      (fun y hy => hx y (List.mem_cons_of_mem _ hy))
+
+theorem bGet_ok {s : St α} (hs : StoreOKB V s) (k : Nat) : AllM (V 0) (bGet s k).val := by
+  unfold bGet
+  cases hg : St.getL s.bs k with
+  | none => exact B.nil_V
+  | some r => exact hs.2 k r hg
+
+variable (h : EnvAgreeB env env' V)
+include h
+
+theorem bord_eq (i : Nat) : bord env' i = bord env i := by
+  unfold bord; rw [h.bring']; rfl
+
+theorem encB_eq (o : Order) (f : BPoly α) : encB env' o f = encB env o f := by
+  unfold encB F0
+  rw [B.sortedTerms_congr (h.u.base.agree 0), (h.u.base.agree 0).enc]
+
+theorem encB_eq' (o : Order) : encB env' o = encB env o := funext (encB_eq h o)
+
+theorem showB_eq (r : BReg α) : showB env' r = showB env r := by
+  unfold showB; rw [encB_eq h, bord_eq h]
+
+theorem putB {s : St α} (hs : StoreOKB V s) (dst : Nat) {r r' : BReg α} (e : r' = r)
+    (hv : AllM (V 0) r.val) (tag : String) :
+    (({ s with bs := St.setL s.bs dst r' }, tag ++ showB env' r') : St α × String)
+      = ({ s with bs := St.setL s.bs dst r }, tag ++ showB env r) ∧
+    StoreOKB V { s with bs := St.setL s.bs dst r } := by
+  subst e
+  exact ⟨by rw [showB_eq h], hs.setB dst _ hv⟩
+
+theorem putEB {s : St α} (hs : StoreOKB V s) (dst : Nat) {r r' : EReg α} (e : r' = r)
+    (hv : V r.home r.val) (tag : String) :
+    (({ s with es := St.setL s.es dst r' }, tag ++ showE env' r') : St α × String)
+      = ({ s with es := St.setL s.es dst r }, tag ++ showE env r) ∧
+    StoreOKB V { s with es := St.setL s.es dst r } := by
+  subst e
+  exact ⟨by rw [showE_eq h.u.base], hs.setE dst _ hv⟩
+
+omit h in
+theorem bCheck_V {f : BReg α} {gs : List (BReg α)} (hf : AllM (V 0) f.val)
+    (hgs : ∀ g ∈ gs, AllM (V 0) g.val) :
+    ∀ r b, bCheck f gs = some (r, b) → AllM (V 0) r.val := by
+  intro r b hr
+  unfold bCheck at hr
+  split at hr
+  · cases hr; exact hf
+  · split at hr
+    · next g hg => cases hr; exact hgs g (List.mem_of_find?_eq_some hg)
+    · split at hr
+      · cases hr; exact B.nil_V
+      · cases hr
+
+theorem bReduce_par {r : BReg α} (hr : AllM (V 0) r.val) :
+    bReduce env' r = bReduce env r ∧ AllM (V 0) (bReduce env r).val := by
+  unfold bReduce bring
+  rw [h.bring' r.home]
+  obtain ⟨e, hv⟩ := B.reduceIn_par (h.u.base.agree 0) (h.u.base.closed 0) (h.bringOK r.home) hr
+  rw [e]
+  split
+  · exact ⟨rfl, hr⟩
+  · cases hred : BPoly.reduceIn (env.bring r.home) r.val with
+    | none => exact ⟨rfl, hr⟩
+    | some v => exact ⟨rfl, hv v hred⟩
+
+theorem bInPlace_par (op : String) {a b : BReg α} (ha : AllM (V 0) a.val) (hb : AllM (V 0) b.val) :
+    bInPlace env' op a b = bInPlace env op a b ∧ AllM (V 0) (bInPlace env op a b).1.val ∧
+      AllM (V 0) (bInPlace env op a b).2.1.val := by
+  unfold bInPlace
+  have hck := bCheck_V ha (gs := [b]) (fun g hg => by rw [List.mem_singleton] at hg; exact hg ▸ hb)
+  cases hc : bCheck a [b] with
+  | some rb =>
+    obtain ⟨r, bb⟩ := rb
+    cases bb
+    · exact ⟨rfl, ha, hck r false hc⟩
+    · exact ⟨rfl, hck r true hc, hck r true hc⟩
+  | none =>
+    simp only [F0]
+    split
+    · obtain ⟨e, hv⟩ := B.add_par (h.u.base.agree 0) (h.u.base.closed 0) ha hb
+      rw [e]; exact ⟨rfl, hv, hv⟩
+    · obtain ⟨e, hv⟩ := B.sub_par (h.u.base.agree 0) (h.u.base.closed 0) ha hb
+      rw [e]; exact ⟨rfl, hv, hv⟩
+
+theorem bTimes_par {a b : BReg α} (ha : AllM (V 0) a.val) (hb : AllM (V 0) b.val) :
+    bTimes env' a b = bTimes env a b ∧ AllM (V 0) (bTimes env a b).val := by
+  unfold bTimes
+  have hck := bCheck_V ha (gs := [b]) (fun g hg => by rw [List.mem_singleton] at hg; exact hg ▸ hb)
+  cases hc : bCheck a [b] with
+  | some rb => obtain ⟨r, bb⟩ := rb; exact ⟨rfl, hck r bb hc⟩
+  | none =>
+    simp only [F0]
+    obtain ⟨e, hv⟩ := B.mulNoReduce_par (h.u.base.agree 0) (h.u.base.closed 0) ha hb
+    rw [e]
+    cases hm : BPoly.mulNoReduce (env.fld 0) a.val b.val with
+    | none => exact ⟨rfl, B.nil_V⟩
+    | some p => exact bReduce_par h (r := { a with val := p }) (hv p hm)
+
+theorem bBinRes_par {s : St α} (hs : StoreOKB V s) (op : String) (a b : Nat) :
+    bBinRes env' s op a b = bBinRes env s op a b ∧ AllM (V 0) (bBinRes env s op a b).val := by
+  unfold bBinRes
+  split
+  · exact bTimes_par h (bGet_ok hs a) (bGet_ok hs b)
+  · obtain ⟨e, -, hv⟩ := bInPlace_par h op (bGet_ok hs a) (bGet_ok hs b)
+    rw [e]; exact ⟨rfl, hv⟩
+
+theorem bInRes_par {s : St α} (hs : StoreOKB V s) (op : String) (a b : Nat) :
+    bInRes env' s op a b = bInRes env s op a b ∧ AllM (V 0) (bInRes env s op a b).1.val := by
+  unfold bInRes
+  split
+  · obtain ⟨e, hv⟩ := bTimes_par h (bGet_ok hs a) (bGet_ok hs b)
+    rw [e]; exact ⟨rfl, hv⟩
+  · obtain ⟨e, hv, -⟩ := bInPlace_par h op (bGet_ok hs a) (bGet_ok hs b)
+    rw [e]; exact ⟨rfl, hv⟩
+
+theorem bUnRes_par {s : St α} (hs : StoreOKB V s) (op : String) (a : Nat) :
+    bUnRes env' s op a = bUnRes env s op a ∧ AllM (V 0) (bUnRes env s op a).val := by
+  unfold bUnRes
+  simp only [F0, bord_eq h]
+  have ha := bGet_ok hs a
+  split
+  · exact ⟨rfl, ha⟩
+  · split
+    · obtain ⟨e, hv⟩ := B.neg_par (h.u.base.agree 0) (h.u.base.closed 0) ha
+      rw [e]; exact ⟨rfl, hv⟩
+    · split
+      · obtain ⟨e, hv⟩ := B.normalize_par (h.u.base.agree 0) (h.u.base.closed 0)
+          (bord env (bGet s a).home) ha
+        rw [e]; exact ⟨rfl, hv⟩
+      · obtain ⟨e, hv⟩ := B.lt_par (h.u.base.agree 0) (h.u.base.closed 0)
+          (bord env (bGet s a).home) ha
+        rw [e]; exact ⟨rfl, hv⟩
+
+theorem eValB_ok {s : St α} (hs : StoreOKB V s) (k : Nat) : V 0 (eGet env s k).val :=
+  eVal_ok h.u hs.1 k
+
+theorem bScaleRes_par {s : St α} (hs : StoreOKB V s) (a e : Nat) :
+    bScaleRes env' s a e = bScaleRes env s a e ∧ AllM (V 0) (bScaleRes env s a e).val := by
+  unfold bScaleRes
+  simp only [eGet_eq h.u.base, scalarEffect_eq h.u, F0]
+  have ha := bGet_ok hs a
+  have he := eValB_ok h hs e
+  cases hse : scalarEffect env (eGet env s e) with
+  | none => exact ⟨rfl, ha⟩
+  | some b =>
+    cases b
+    · exact ⟨rfl, B.nil_V⟩
+    · obtain ⟨e1, hv⟩ := B.scale_par (h.u.base.agree 0) (h.u.base.closed 0) ha he
+      dsimp only
+      rw [e1, (h.u.base.agree 0).isZero]
+      refine ⟨rfl, ?_⟩
+      show AllM (V 0) (if (env.fld 0).isZero (eGet env s e).val = true then (_ : BReg α) else _).val
+      split
+      · exact B.nil_V
+      · exact hv
+
+theorem bSetScaleRes_par {s : St α} (hs : StoreOKB V s) (a e : Nat) :
+    bSetScaleRes env' s a e = bSetScaleRes env s a e ∧ AllM (V 0) (bSetScaleRes env s a e).val := by
+  unfold bSetScaleRes
+  simp only [eGet_eq h.u.base, scalarEffect_eq h.u, F0]
+  have ha := bGet_ok hs a
+  have he := eValB_ok h hs e
+  cases hse : scalarEffect env (eGet env s e) with
+  | none => exact ⟨rfl, ha⟩
+  | some b =>
+    cases b
+    · exact ⟨rfl, B.nil_V⟩
+    · obtain ⟨e1, hv⟩ := B.scale_par (h.u.base.agree 0) (h.u.base.closed 0) ha he
+      dsimp only
+      rw [e1]
+      exact ⟨rfl, hv⟩
+
+theorem bPowRes_par {s : St α} (hs : StoreOKB V s) (a n : Nat) :
+    bPowRes env' s a n = bPowRes env s a n ∧ AllM (V 0) (bPowRes env s a n).val := by
+  unfold bPowRes bring
+  have ha := bGet_ok hs a
+  dsimp only
+  rw [h.bring']
+  obtain ⟨e, hv⟩ := B.pow_par (h.u.base.agree 0) (h.u.base.closed 0) (h.bringOK (bGet s a).home) ha n
+  rw [e]
+  split
+  · exact ⟨rfl, ha⟩
+  · cases hp : BPoly.pow (env.bring (bGet s a).home) (bGet s a).val n with
+    | error k => exact ⟨rfl, B.nil_V⟩
+    | ok o =>
+      cases o with
+      | none => exact ⟨rfl, ha⟩
+      | some v => exact ⟨rfl, hv v hp⟩
+
+end StepB
 end Tables
 end Algobra
